@@ -99,7 +99,9 @@ def gen_fmt_cases(c):
 
 def check_fmt(c):
     cases = gen_fmt_cases(c)
-    lines = [F.fmt_rat_line(neg, p, q, vex, bk, st, comma) for (neg, p, q, vex, bk, st, comma, kind) in cases]
+    # every 11th case hands the numbers over as non-canonical `Large` vectors (a leading zero limb): same value, same text
+    lines = [F.fmt_rat_line(neg, p, q, vex, bk, st, comma, lead=(1 if i % 11 == 5 else 0))
+             for i, (neg, p, q, vex, bk, st, comma, kind) in enumerate(cases)]
     impl = c.impl('fmt', lines)
     model = c.model('fmt', lines)
     read_lines, read_idx = [], []
